@@ -142,15 +142,22 @@ TypedArgBase* ArgumentContainer::findArg( const ArgumentKey& key) const
 {
 
 
-   TypedArgBase*  part_match = nullptr;
-
-
+   // an exact key always selects its own argument, regardless of the order in
+   // which the arguments were defined: search for it first
    for (auto const& argi : mArguments)
    {
       if (argi == key)
          return argi.data().get();
+   } // end for
 
-      if (mAbbrAllowed && argi.key().startsWith( key))
+   if (!mAbbrAllowed)
+      return nullptr;
+
+   TypedArgBase*  part_match = nullptr;
+
+   for (auto const& argi : mArguments)
+   {
+      if (argi.key().startsWith( key))
       {
          // found a match using the long argument as abbreviation
          if (part_match == nullptr)
